@@ -12,6 +12,8 @@ func (e *Engine) setupModels() {
 	e.setupCtx()
 	e.setupTime()
 	e.setupAtomic()
+	e.setupFlag()
+	e.setupSort()
 }
 
 // quiesce lets every other thread run until none can move; returns the number of
